@@ -86,6 +86,7 @@ type cfgRun struct {
 	graph    bool // dump the state graph and replay covering paths
 	maxPaths int  // 0: cover every edge
 	maxLen   int
+	repeat   int // replay every path this many times (fresh databases: treap shapes are random)
 	heapGB   int
 	timeout  time.Duration
 	coverage bool
@@ -187,6 +188,9 @@ func modelCheck(ctx *vrun.Ctx, cr cfgRun) (func(work string) error, error) {
 	r := &runner{ctx: ctx, cfg: cr.cfg, cc: cc}
 	paths, covered := g.coverPaths(ctx.Rand("paths:"+cr.cfg), cr.maxPaths, cr.maxLen)
 	ctx.Logf("%s: graph %d nodes %d edges parsed in %.0fs; %d paths cover %d edges", cr.cfg, len(g.nodes), g.edges, time.Since(t1).Seconds(), len(paths), covered)
+	for k, n := 1, len(paths); k < cr.repeat; k++ {
+		paths = append(paths, paths[:n]...)
+	}
 	return func(work string) error { return r.replayAll(g, paths, covered, work) }, nil
 }
 
@@ -372,6 +376,7 @@ func RunC05(ctx *vrun.Ctx) error {
 			{cfg: "kv.cfg", graph: true, maxPaths: 20000, timeout: 20 * time.Minute, heapGB: 8},
 			{cfg: "blk.cfg", graph: true, timeout: 20 * time.Minute, heapGB: 8},
 			{cfg: "iso.cfg", graph: true, timeout: 20 * time.Minute, heapGB: 8},
+			{cfg: "isodel.cfg", graph: true, repeat: 4, timeout: 20 * time.Minute, heapGB: 8},
 			{cfg: "pow.cfg", graph: true, timeout: 20 * time.Minute, heapGB: 8},
 			{cfg: "cur.cfg", graph: true, timeout: 20 * time.Minute, heapGB: 8},
 			{cfg: "curmix.cfg", graph: true, timeout: 20 * time.Minute, heapGB: 8},
@@ -395,6 +400,7 @@ func RunC05(ctx *vrun.Ctx) error {
 			{cfg: "cur.cfg", graph: true, maxPaths: 800, timeout: 5 * time.Minute, heapGB: 6},
 			{cfg: "curmix.cfg", graph: true, maxPaths: 800, timeout: 5 * time.Minute, heapGB: 6},
 			{cfg: "iso.cfg", graph: true, maxPaths: 600, timeout: 5 * time.Minute, heapGB: 6},
+			{cfg: "isodel.cfg", graph: true, maxPaths: 500, repeat: 3, timeout: 5 * time.Minute, heapGB: 6},
 			{cfg: "isoblk.cfg", graph: true, maxPaths: 700, timeout: 5 * time.Minute, heapGB: 6},
 			{cfg: "kvq.cfg", graph: true, maxPaths: 1000, timeout: 5 * time.Minute, heapGB: 6},
 		}
@@ -432,7 +438,7 @@ func RunC05(ctx *vrun.Ctx) error {
 			treapPaths = 40000
 		}
 		if os.Getenv("VERIF_FFLDB_CFGS") == "" || strings.Contains(os.Getenv("VERIF_FFLDB_CFGS"), "treap") {
-			treapCfgs := []string{"treap_iter.cfg", "treap_imm.cfg"}
+			treapCfgs := []string{"treap_del.cfg", "treap_iter.cfg", "treap_imm.cfg"}
 			if ctx.Thorough {
 				treapCfgs = append(treapCfgs, "treap_imm_big.cfg")
 			}
